@@ -8,6 +8,9 @@ about what the library source says now.  `DateValid` / `DateNext` are the prolep
 down independently in XrayModel/Conv.lean (leap rule, month lengths, successor).
 -/
 import XrayProofs.ConvDate
+import XrayProofs.ConvFrac
+import XrayProofs.ConvTime
+import XrayProofs.ConvStr
 namespace XrayModel.C20
 open XrayGen XrayModel.Conv
 
@@ -48,5 +51,156 @@ theorem weekday_range (jd : Int) : 0 ≤ weekday (date jd) ∧ weekday (date jd)
 
 /-- 1970-01-01 was a Thursday (Monday = 0) -/
 theorem weekday_epoch : weekday std_unix_epoch = 3 := by decide +kernel
+
+
+/-! ### datetime ↔ Unix seconds
+Floats are abstract: the statements hold for every carrier `F` and operations `O` that satisfy the stated law of
+exact arithmetic (`DivModLaw`: t = 60·⌊t/60⌋ + t mod 60; `AddLaw`: adding whole minutes to seconds in [0,60) and
+dividing again returns the parts).  The laws are satisfiable: exact binary fixed point satisfies both (examples).
+IEEE doubles satisfy them for the times the tie samples (multiples of 2^-10 s in ±10^11 s); for other doubles they
+can fail by rounding (design/C20.md). -/
+
+/-- Unix seconds → `Datetime` → Unix seconds is the identity (negative and fractional times included) -/
+theorem unix_datetime_roundtrip {F : Type} (O : FloatOps F) (law : DivModLaw O) (t : F) :
+    unix O (datetime O t) = t := unix_datetime O law t
+
+example : DivModLaw (fixOps 1048576) := fix_divmod
+
+/-- a canonical `Datetime` (valid date, 0 ≤ hours < 24, 0 ≤ minutes < 60, seconds in [0, 60)) → Unix seconds →
+`Datetime` is the identity -/
+theorem datetime_unix_roundtrip {F : Type} (O : FloatOps F) (law : AddLaw O) (dt : Datetime F)
+    (hv : DateValid dt.date) (hh : 0 ≤ dt.hours ∧ dt.hours < 24) (hm : 0 ≤ dt.minutes ∧ dt.minutes < 60)
+    (hs : SecondsInRange O dt.seconds) : datetime O (unix O dt) = dt := datetime_unix O law dt hv hh hm hs
+
+example : AddLaw (fixOps 1048576) := fix_add
+
+/-- `datetime` always yields canonical integer fields (also for negative times: floored, not truncated) -/
+theorem datetime_canonical {F : Type} (O : FloatOps F) (t : F) :
+    DateValid (datetime O t).date ∧ 0 ≤ (datetime O t).hours ∧ (datetime O t).hours < 24 ∧
+      0 ≤ (datetime O t).minutes ∧ (datetime O t).minutes < 60 := datetime_fields O t
+
+/-- `datetime` has no error path except a zero divisor literal (i.e. none) -/
+theorem datetime_total (t : Int) : datetime_dom (fixOps 1048576) t = true := by
+  unfold datetime_dom; simp only []; rw [fix_lit]; decide
+
+/-! ### fractions -/
+
+/-- the library's Euclid loop terminates within its fuel for all operands and computes the gcd -/
+theorem gcd_correct (a b : Int) : gcd_dom a b = true ∧ XrayGen.gcd a b = (Int.gcd a b : Int) :=
+  ⟨gcd_total a b, gcd_spec a b⟩
+
+/-- `fraction n d` (d ≠ 0) is defined, has a positive denominator, is in lowest terms and denotes n/d —
+for operands of every magnitude (the division is exact integer division) -/
+theorem fraction_lowest_terms (n d : Int) (hd : d ≠ 0) :
+    fraction_dom n d = true ∧ 0 < (fraction n d).d ∧ Int.gcd (fraction n d).n (fraction n d).d = 1 ∧
+      (fraction n d).n * d = n * (fraction n d).d := by
+  obtain ⟨h1, ⟨h2, h3⟩, h4⟩ := fraction_spec n d hd
+  exact ⟨h1, h2, h3, h4⟩
+
+example : fraction (2 ^ 70 + 1) 3 = ⟨1180591620717411303425, 3⟩ ∧ fraction (3 * 2 ^ 70) (-6) = ⟨-590295810358705651712, 1⟩ ∧
+    fraction 6 (-4) = ⟨-3, 2⟩ := by decide +kernel
+
+/-- a zero denominator is an error value, not a fraction -/
+theorem fraction_zero_denominator (n : Int) : fraction_dom n 0 = false := fraction_zero_den n
+
+/-- canonical: two fractions in canonical form that denote the same rational are the same structure, so the
+field-wise `eq` of the library decides equality of rationals -/
+theorem fraction_canonical_unique (a b : Fraction) (ha : Canonical a) (hb : Canonical b) :
+    fr_eq a b = true ↔ a.n * b.d = b.n * a.d := by
+  constructor
+  · intro h
+    simp only [fr_eq, Bool.and_eq_true, decide_eq_true_eq] at h
+    rw [h.1, h.2]
+  · intro h
+    have := canonical_unique a b ha hb h
+    subst this
+    simp [fr_eq]
+
+/-- normalising a canonical fraction again changes nothing -/
+theorem fraction_idempotent (f : Fraction) (hf : Canonical f) : fraction f.n f.d = f := by
+  obtain ⟨_, hc, he⟩ := fraction_spec f.n f.d (by have := hf.1; omega)
+  exact canonical_unique _ _ hc hf he
+
+/-- addition is exact (stated by cross-multiplication) and returns a canonical fraction -/
+theorem fr_add_exact (a b : Fraction) (ha : a.d ≠ 0) (hb : b.d ≠ 0) :
+    fr_add_dom a b = true ∧ Canonical (fr_add a b) ∧
+      (fr_add a b).n * (a.d * b.d) = (a.n * b.d + b.n * a.d) * (fr_add a b).d :=
+  fraction_spec _ _ (Int.mul_ne_zero ha hb)
+
+theorem fr_sub_exact (a b : Fraction) (ha : a.d ≠ 0) (hb : b.d ≠ 0) :
+    fr_sub_dom a b = true ∧ Canonical (fr_sub a b) ∧
+      (fr_sub a b).n * (a.d * b.d) = (a.n * b.d - b.n * a.d) * (fr_sub a b).d :=
+  fraction_spec _ _ (Int.mul_ne_zero ha hb)
+
+theorem fr_mul_exact (a b : Fraction) (ha : a.d ≠ 0) (hb : b.d ≠ 0) :
+    fr_mul_dom a b = true ∧ Canonical (fr_mul a b) ∧
+      (fr_mul a b).n * (a.d * b.d) = (a.n * b.n) * (fr_mul a b).d :=
+  fraction_spec _ _ (Int.mul_ne_zero ha hb)
+
+/-- division by a non-zero fraction is exact; the sign moves to the numerator -/
+theorem fr_div_exact (a b : Fraction) (ha : a.d ≠ 0) (hb : b.n ≠ 0) :
+    fr_div_dom a b = true ∧ Canonical (fr_div a b) ∧
+      (fr_div a b).n * (a.d * b.n) = (a.n * b.d) * (fr_div a b).d :=
+  fraction_spec _ _ (Int.mul_ne_zero ha hb)
+
+/-- division by zero is an error value -/
+theorem fr_div_zero (a b : Fraction) (hb : b.n = 0) : fr_div_dom a b = false := by
+  unfold fr_div_dom; rw [hb, Int.mul_zero]; exact fraction_zero_den _
+
+/-- negation and absolute value keep the canonical form -/
+theorem fr_neg_abs_canonical (a : Fraction) (ha : Canonical a) : Canonical (fr_neg a) ∧ Canonical (fr_abs a) := by
+  unfold Canonical fr_neg fr_abs at *
+  simp only [abs_eq]
+  refine ⟨⟨ha.1, by rw [Int.neg_gcd]; exact ha.2⟩, ha.1, ?_⟩
+  have : Int.gcd (a.n.natAbs : Int) a.d = Int.gcd a.n a.d := by unfold Int.gcd; rw [Int.natAbs_natCast]
+  rw [this]; exact ha.2
+
+/-- `floor` and `ceil` of a fraction with positive denominator are the integer bounds of n/d -/
+theorem fr_floor_ceil_spec (a : Fraction) (h : 0 < a.d) :
+    (fr_floor a * a.d ≤ a.n ∧ a.n < (fr_floor a + 1) * a.d) ∧
+      ((fr_ceil a - 1) * a.d < a.n ∧ a.n ≤ fr_ceil a * a.d) :=
+  ⟨fr_floor_bounds a h, fr_ceil_bounds a h⟩
+
+/-! ### code point ↔ character -/
+
+/-- `chr` succeeds exactly on Unicode scalar values (surrogates and values above 0x10FFFF are error values) and
+`code_point` returns the number it was given -/
+theorem chr_code_point (i : Int) (h0 : 0 ≤ i) (hs : isScalar i.toNat = true) :
+    ∃ s, chr i = .ok s ∧ codePoint s = .ok i := by
+  have hlt : i < 4294967296 := by
+    simp only [isScalar, Bool.or_eq_true, Bool.and_eq_true, decide_eq_true_eq] at hs; omega
+  refine ⟨[i.toNat], ?_, ?_⟩
+  · unfold chr; rw [if_neg (by omega), if_pos hs]
+  · unfold codePoint; simp only; congr 1; omega
+
+/-- conversely: the one-character string of a scalar value goes to its code point and back to the same string -/
+theorem code_point_chr (c : Nat) (hs : isScalar c = true) :
+    codePoint [c] = .ok (c : Int) ∧ chr (c : Int) = .ok [c] := by
+  have hlt : c < 4294967296 := by
+    simp only [isScalar, Bool.or_eq_true, Bool.and_eq_true, decide_eq_true_eq] at hs; omega
+  refine ⟨rfl, ?_⟩
+  unfold chr; rw [if_neg (by omega), Int.toNat_natCast, if_pos hs]
+
+/-- `chr` never fabricates a character: outside the scalar values it is an error value -/
+theorem chr_rejects (i : Int) (h : i < 0 ∨ isScalar i.toNat = false) : ∃ e, chr i = .error e := by
+  unfold chr
+  by_cases h1 : i < 0 ∨ 4294967296 ≤ i
+  · exact ⟨_, if_pos h1⟩
+  · rw [if_neg h1]
+    rcases h with h | h
+    · omega
+    · rw [h]; exact ⟨_, rfl⟩
+
+example : isScalar 0xD7FF = true ∧ isScalar 0xD800 = false ∧ isScalar 0xDFFF = false ∧ isScalar 0xE000 = true ∧
+    isScalar 0x10FFFF = true ∧ isScalar 0x110000 = false := by decide
+
+/-! ### JSON strings -/
+
+/-- the text `serialize` writes for a string reads back as the same string, for every string (quotes,
+backslashes, control characters, non-BMP characters) -/
+theorem unescape_escape (s : List Nat) : unescapeStr (escapeStr s) = some s := unescape_escape_str s
+
+/-- escaped text contains no raw control character -/
+theorem escape_no_controls (c : Nat) : ∀ x ∈ escapeChar c, 32 ≤ x := escapeChar_clean c
 
 end XrayModel.C20
